@@ -120,12 +120,14 @@ func c10Compare(cs c10Case) string {
 
 // terms that share an id but differ in '+' or WITH: a verdict cached under too coarse a key
 // (the bare id) shows up as a compositionality failure here
-var c10RichAtoms = []string{"GPL-2.0-only", "GPL-2.0-only WITH Classpath-exception-2.0", "Apache-1.0+", "Apache-1.0"}
+var c10RichAtoms = []string{"GPL-2.0-only", "GPL-2.0-only WITH Classpath-exception-2.0", "Apache-1.0+", "Apache-1.0", "LicenseRef-a", "LicenseRef-A"}
 
-// c10RichObs: bit m-1 = Satisfies(expr, subset m of c10RichAtoms), m = 1..15; 0xFFFF = unusable.
-func c10RichObs(expr string) uint16 {
-	var v uint16
-	for m := 1; m < 16; m++ {
+const c10RichBad = ^uint64(0)
+
+// c10RichObs: bit m-1 = Satisfies(expr, subset m of c10RichAtoms), m = 1..63; all ones = unusable.
+func c10RichObs(expr string) uint64 {
+	var v uint64
+	for m := 1; m < 1<<uint(len(c10RichAtoms)); m++ {
 		var al []string
 		for i, a := range c10RichAtoms {
 			if m&(1<<uint(i)) != 0 {
@@ -134,7 +136,7 @@ func c10RichObs(expr string) uint16 {
 		}
 		r := Sat(expr, al)
 		if r.Panic != "" || r.IsErr {
-			return 0xFFFF
+			return c10RichBad
 		}
 		if r.Ok {
 			v |= 1 << uint(m-1)
@@ -147,7 +149,7 @@ func c10RichCompare(cs c10Case) string {
 	a, b := c10RichObs(cs.E1), c10RichObs(cs.E2)
 	text := "(" + cs.E1 + ") " + cs.Op + " (" + cs.E2 + ")"
 	o := c10RichObs(text)
-	if a == 0xFFFF || b == 0xFFFF || o == 0xFFFF {
+	if a == c10RichBad || b == c10RichBad || o == c10RichBad {
 		return ""
 	}
 	want := a & b
@@ -155,7 +157,7 @@ func c10RichCompare(cs c10Case) string {
 		want = a | b
 	}
 	if o != want {
-		for m := 1; m < 16; m++ {
+		for m := 1; m < 1<<uint(len(c10RichAtoms)); m++ {
 			if (o^want)&(1<<uint(m-1)) != 0 {
 				var al []string
 				for i, x := range c10RichAtoms {
@@ -325,10 +327,10 @@ func c10Run(c *Ctx) {
 			res = append(res, t.RenderMin(c10RichAtoms))
 		}
 	}
-	c.Bound("compositionality_rich", map[string]any{"atoms": c10RichAtoms, "operands_max_leaves": 2, "operands": len(res), "allowed": "all 15 non-empty subsets of the atoms"})
-	robs := make([]uint16, len(res))
+	c.Bound("compositionality_rich", map[string]any{"atoms": c10RichAtoms, "operands_max_leaves": 2, "operands": len(res), "allowed": "all 63 non-empty subsets of the atoms"})
+	robs := make([]uint64, len(res))
 	rhave := make([]bool, len(res))
-	rget := func(i int) uint16 {
+	rget := func(i int) uint64 {
 		if !rhave[i] {
 			robs[i], rhave[i] = c10RichObs(res[i]), true
 		}
@@ -344,7 +346,7 @@ func c10Run(c *Ctx) {
 				return
 			}
 			a, b := rget(i), rget(j)
-			if a == 0xFFFF || b == 0xFFFF {
+			if a == c10RichBad || b == c10RichBad {
 				c.Inc("skipped_panic")
 				continue
 			}
@@ -352,18 +354,18 @@ func c10Run(c *Ctx) {
 				text := "(" + res[i] + ") " + op + " (" + res[j] + ")"
 				o := c10RichObs(text)
 				c.Inc("states")
-				c.Add("transitions", 15)
+				c.Add("transitions", 63)
 				c.Inc("evaluations")
-				if o == 0xFFFF {
+				if o == c10RichBad {
 					c.Inc("skipped_panic")
 					continue
 				}
-				c.Add("traces", 15)
+				c.Add("traces", 63)
 				want := a & b
 				if op == "OR" {
 					want = a | b
 				}
-				if want != 0 && want != 0x7fff {
+				if want != 0 && want != 1<<63-1 {
 					c.Inc("nontrivial")
 				}
 				if o != want {
